@@ -47,6 +47,13 @@ func main() {
 		childMain()
 		return
 	}
+	if os.Getenv("C04_LISTFNS") != "" {
+		for _, f := range getLibFns() {
+			fmt.Println(f.path)
+		}
+		fmt.Println("excluded:", libSkipped)
+		return
+	}
 	if p := os.Getenv("C04_PROBE"); p != "" {
 		probeMain(p)
 		return
